@@ -597,12 +597,12 @@ def predict_cases(ctx, kind, est, a, dense, reg, fr, fc, fs, normalized, rows, g
             ctx.count('ill-conditioned-skipped')
         if not np.all(np.isfinite(p)):
             run = None
-        if kind == 'PCA' and not ok_rows:
-            run = None      # (x - mean).V cancels to ~0 when sigma ~ 0: the quotient by sigma is rounding noise
+        if (kind == 'PCA' or fs != 0) and not ok_rows:
+            run = None      # x.V cancels to ~0 when sigma ~ 0: the quotient by a power of sigma is rounding noise
         if run is None and spec is None:
             continue
         cases.append(Case(key, dict(sigp, check='predict-reproduces-embedding'), run, impl, spec, k_out >= 1, pdesc,
-                          tol=TOL_PREDICT if kind == 'PCA' else None))
+                          tol=TOL_PREDICT if (kind == 'PCA' or fs != 0) else None))
     return cases
 
 
